@@ -15,6 +15,7 @@ import (
 	"github.com/nspcc-dev/neo-go/pkg/core/native/noderoles"
 	"github.com/nspcc-dev/neo-go/pkg/crypto/keys"
 	"github.com/nspcc-dev/neo-go/pkg/util"
+	"github.com/nspcc-dev/neo-go/pkg/vm/stackitem"
 	"github.com/nspcc-dev/neo-go/pkg/wallet"
 	"github.com/nspcc-dev/neofs-contract/deploy"
 	rpcnns "github.com/nspcc-dev/neofs-contract/rpc/nns"
@@ -34,17 +35,21 @@ type schedule struct {
 	cancelMember int    // -1: nobody is interrupted
 	cancelAt     int    // relative block at which the member's run is cancelled
 	restartAfter int    // blocks until the member is started again
+	leaveAt      []int  // >0: the member's process dies at this block and comes back only after the Notary role is on chain
+	// event driven churn (block numbers cannot be fixed in advance because they depend on block rewards):
+	early []bool // starts at once, dies 3 blocks after its signature record is in NNS, returns after the Notary role is on chain
+	late  []bool // starts only after the shared transaction data has expired and was re-created by the leader
 }
 
 func (s schedule) String() string {
-	return fmt.Sprintf("n=%d start=%v absent=%v cancel(member %d at block %d, restart after %d)", s.n, s.start, s.absent, s.cancelMember, s.cancelAt, s.restartAfter)
+	return fmt.Sprintf("n=%d start=%v absent=%v leaveAt=%v early=%v late=%v cancel(member %d at block %d, restart after %d)", s.n, s.start, s.absent, s.leaveAt, s.early, s.late, s.cancelMember, s.cancelAt, s.restartAfter)
 }
 
 func (s schedule) nontrivial() bool {
 	if s.n < 2 {
 		return false
 	}
-	if s.cancelMember >= 0 {
+	if s.cancelMember >= 0 || s.leaveAt != nil || s.early != nil {
 		return true
 	}
 	for i := range s.start {
@@ -106,6 +111,9 @@ func driveDeploy(sim *simchain.Sim, s schedule, quiet time.Duration, maxBlocks i
 	errs = make([]error, n)
 	started := make([]bool, n)
 	cancelled, restarted := false, false
+	left, rejoined := make([]bool, n), make([]bool, n)
+	sigSeen := make([]int, n)
+	firstShared := ""
 	var mu sync.Mutex
 	startMember := func(i int) {
 		ctx, cancel := context.WithCancel(context.Background())
@@ -127,9 +135,63 @@ func driveDeploy(sim *simchain.Sim, s schedule, quiet time.Duration, maxBlocks i
 	for {
 		rel := int(sim.BC.BlockHeight()) - h0
 		for i := 0; i < n; i++ {
-			if !started[i] && rel >= s.start[i] && (!s.absent[i] || notaryOn()) {
+			if !started[i] && rel >= s.start[i] && (!s.absent[i] || notaryOn()) && !(s.late != nil && s.late[i]) {
 				started[i] = true
 				h.Op("block +%d: member %d starts", rel, i)
+				startMember(i)
+			}
+		}
+		if s.early != nil {
+			shared := nnsTXT(sim, "designate-committee-notary-tx.bootstrap")
+			if firstShared == "" && shared != "" {
+				firstShared = shared
+				h.Op("block +%d: the leader published the shared transaction data", rel)
+			}
+			recreated := firstShared != "" && shared != "" && shared != firstShared
+			for i := 1; i < n; i++ {
+				if s.early[i] && !left[i] && started[i] {
+					if nnsTXT(sim, fmt.Sprintf("designate-committee-notary-%d.bootstrap", i)) != "" {
+						sigSeen[i]++
+					}
+					if sigSeen[i] >= 4 {
+						left[i] = true
+						runs[i].cancel()
+						<-runs[i].done
+						runs[i] = nil
+						h.Op("block +%d: member %d published its signature, the leader had 3 blocks to read it; its process dies", rel, i)
+					}
+				}
+				if s.early[i] && left[i] && !rejoined[i] && notaryOn() {
+					rejoined[i] = true
+					h.Op("block +%d: member %d comes back (the Notary role is on chain)", rel, i)
+					startMember(i)
+				}
+				if s.late[i] && !started[i] && recreated {
+					allEarlyGone := true
+					for j := 1; j < n; j++ {
+						if s.early[j] && !left[j] {
+							allEarlyGone = false
+						}
+					}
+					if allEarlyGone {
+						started[i] = true
+						h.Op("block +%d: member %d starts (the shared data expired and was re-created)", rel, i)
+						startMember(i)
+					}
+				}
+			}
+		}
+		for i := 0; i < n && s.leaveAt != nil; i++ {
+			if s.leaveAt[i] > 0 && !left[i] && started[i] && !finished[i] && rel >= s.leaveAt[i] {
+				left[i] = true
+				runs[i].cancel()
+				<-runs[i].done
+				runs[i] = nil
+				h.Op("block +%d: member %d's process dies", rel, i)
+			}
+			if left[i] && !rejoined[i] && notaryOn() {
+				rejoined[i] = true
+				h.Op("block +%d: member %d comes back (the Notary role is on chain)", rel, i)
 				startMember(i)
 			}
 		}
@@ -167,7 +229,11 @@ func driveDeploy(sim *simchain.Sim, s schedule, quiet time.Duration, maxBlocks i
 		if all {
 			return errs, true
 		}
-		if rel > maxBlocks || (rel > 250+60*n && !notaryOn()) {
+		bootBudget := 250 + 60*n
+		if s.leaveAt != nil || s.early != nil {
+			bootBudget += 650
+		}
+		if rel > maxBlocks || (rel > bootBudget && !notaryOn()) {
 			// (a run that cannot even designate the Notary role will not finish: give up early)
 			return errs, false
 		}
@@ -287,11 +353,40 @@ func checkDeployed(sim *simchain.Sim, n int) {
 	}
 }
 
+// nnsTXT reads the first TXT record of a domain ("" when the NNS, the domain or the record is missing).
+func nnsTXT(sim *simchain.Sim, domain string) string {
+	nnsHash, err := sim.BC.GetContractScriptHash(1)
+	if err != nil {
+		return ""
+	}
+	res, err := sim.NewMember(context.Background()).InvokeScript(chainkit.Script(nnsHash, "getRecords", domain, recTXT), nil)
+	if err != nil || res.State != "HALT" || len(res.Stack) != 1 {
+		return ""
+	}
+	items, ok := res.Stack[0].Value().([]stackitem.Item)
+	if !ok || len(items) == 0 {
+		return ""
+	}
+	b, _ := items[0].TryBytes()
+	return string(b)
+}
+
+func seq(a, b int) []int {
+	var r []int
+	for i := a; i < b; i++ {
+		r = append(r, i)
+	}
+	return r
+}
+
 func keyOfMember(i int) *keys.PrivateKey { return chainkit.DetKey(fmt.Sprintf("committee-%d", i)) }
 
 // runSchedule executes one schedule including the idempotent re-run.
 func runSchedule(s schedule, h *ev.History, col *ev.Collector) {
 	maxBlocks := 700 + 150*s.n
+	if s.leaveAt != nil || s.early != nil {
+		maxBlocks += 600
+	}
 	quiet := 12 * time.Millisecond
 	var sim *simchain.Sim
 	var errs []error
@@ -369,7 +464,44 @@ func TestC13Deploy(t *testing.T) {
 	runRapid(t, col, func(rt *rapid.T, h *ev.History) {
 		n := rapid.SampledFrom(ns).Draw(rt, "n")
 		s := schedule{n: n, start: make([]int, n), absent: make([]bool, n), cancelMember: -1}
-		switch rapid.SampledFrom([]string{"simultaneous", "staggered", "staggered", "absent", "cancel", "cancel"}).Draw(rt, "shape") {
+		shapes := []string{"simultaneous", "staggered", "staggered", "absent", "cancel", "cancel"}
+		if n >= 4 {
+			shapes = append(shapes, "churn", "expiry-churn")
+		}
+		if sh := os.Getenv("VERIF_C13_SHAPE"); sh != "" {
+			shapes = []string{sh}
+		}
+		switch rapid.SampledFrom(shapes).Draw(rt, "shape") {
+		case "expiry-churn":
+			// Like churn, but driven by events: the early minority dies after the leader could read
+			// its signatures, the shared data is left to expire and be re-created, only then the
+			// rest of a majority starts (stale signatures must not be counted for the new data).
+			need := n/2 + 1 - 1
+			early := rapid.IntRange(1, need-1).Draw(rt, "earlyMembers")
+			s.early, s.late = make([]bool, n), make([]bool, n)
+			perm := rapid.Permutation(seq(1, n)).Draw(rt, "memberOrder")
+			for j, i := range perm {
+				if j < early {
+					s.early[i] = true
+				} else {
+					s.late[i] = true
+				}
+			}
+		case "churn":
+			// An early minority (too small to complete the bootstrap with the leader) signs and dies;
+			// the rest of a majority arrives only after the shared transaction data has expired
+			// (> 120 blocks); the early ones return after the Notary role is designated.
+			need := n/2 + 1 - 1 // remote signatures the leader needs
+			early := rapid.IntRange(1, need-1).Draw(rt, "earlyMembers")
+			s.leaveAt = make([]int, n)
+			perm := rapid.Permutation(seq(1, n)).Draw(rt, "memberOrder")
+			for j, i := range perm {
+				if j < early {
+					s.leaveAt[i] = rapid.IntRange(100, 125).Draw(rt, "leaveAt")
+				} else {
+					s.start[i] = rapid.IntRange(135, 170).Draw(rt, "lateStart")
+				}
+			}
 		case "staggered":
 			for i := range s.start {
 				s.start[i] = rapid.IntRange(0, 40).Draw(rt, "startBlock")
